@@ -44,6 +44,18 @@ claim("C07",
       "Not decided: EC block counts against the standard's table entry by entry (no independent copy; the structural invariants pin every entry up to compensating errors), "
       "calculateBCHCode itself, function-pattern embedding, and matrix_lib == matrix_ref for whole symbols.",
       "tables dumped from the compiled package on every run; products of symbolic integers uninterpreted in function VCs (mask 5-7 claims are conditional on i*j >= 0).")
+claim("C04",
+      "Field arithmetic, all six fields, every element: the compiled exp/log tables are proved to be the orbit of multiplication by x modulo the field's primitive polynomial "
+      "(exp[0]=1, exp[i+1]=xtime(exp[i]), log(exp(i))=i, exp(log(x))=x, x*inv(x)=1 via the tables), GenericGF.Multiply/Inverse/Exp/Log are proved equal to their table definitions with exact error conditions, "
+      "and table multiplication is proved equal to carry-less multiplication modulo the primitive polynomial for all pairs of GF(16) and GF(64) (quick) and both GF(256) fields (thorough tier). "
+      "Encoder: NewGenericGFPoly/BuildMonomial/AddOrSubtract/MultiplyByMonomial/Multiply/Divide are proved to keep polynomials well formed (coefficients in the field, no leading zero), with exact error conditions, "
+      "length/degree relations and provenance of the result's storage; Divide is proved (partial correctness) to return a remainder that is zero or of lower degree than the divisor; buildGenerator is proved to cache a "
+      "degree-d polynomial at index d obtained from the previous one by the factor (x + alpha^(d-1+generatorBase)); ReedSolomonEncoder.Encode is proved to leave the data symbols unchanged, to write only parity positions, "
+      "to write field elements, to place the division remainder right-aligned behind the data with leading zeros, to fail exactly on ecBytes <= 0 or no data, and to preserve the encoder invariant. "
+      "Not decided by contracts: that the parity makes all syndromes zero (needs the ring identity dividend = q*g + r and the roots of g, i.e. polynomial algebra over the table-defined product), the whole decoder "
+      "(syndromes, Euclid, Chien, Forney) and the correction bound floor(r/2), GF(1024)/GF(4096) table product == polynomial product for all pairs (16.7M cases), termination of Divide.",
+      "tables dumped from the compiled package on every run; polynomial layer in integer mode (XOR facts imported from lemmas proved on 64-bit vectors); remainder by a symbolic positive divisor given its bounds explicitly; "
+      "Encode assumes the buffer does not share memory with the encoder's polynomials (sepEnc) and len <= size-1.")
 claim("C05",
       "Narrow claim: the pairwise Hamming distance of the 32 format words is >= 7 and of the 34 version words >= 8 (all pairs, over the compiled tables), so up to three flipped bits leave "
       "the original word the unique nearest entry; FormatInformation_NumBitsDiffering is proved to be the Hamming distance (64-bit vectors). "
@@ -101,6 +113,6 @@ claim("C17",
       "calculateBlackPoints, calculateThresholdForBlock, thresholdBlock, GetBlackRow).",
       "products of symbolic integers uninterpreted except for the proved index lemmas (viewRow, rotIdx, rowIdxInj); errors constructors from xerrors assumed non-panicking.")
 
-for p in ["C01","C02","C03","C04","C08","C09","C15"]:
+for p in ["C01","C02","C03","C08","C09","C15"]:
     na(p, NOTYET)
 na("C11", "The library has no Aztec writer: 'conforming symbol' would have to be a hand-written restatement of ISO/IEC 24778 (a model, not the code), and the image-to-bits path is a float-geometry detector; no contract on one call of the real code expresses the property. The Aztec decoder's totality is covered under C06.")
